@@ -52,6 +52,7 @@ type CrashStore struct {
 	// hook run at the boundary just before a call (after it was counted but
 	// before it is forwarded); used to interleave another chain's work.
 	Boundary func(c *Call)
+	conc     *concCtl // concurrent mode (conc.go): only WriteSnapshot is intercepted
 }
 
 func NewCrashStore(inner storage.Store, env *Env, mode string, k int, tracePath string) *CrashStore {
@@ -219,6 +220,9 @@ func (s *CrashStore) UpdateEmptyHeadRound(node crypto.Hash, number uint64, refer
 }
 
 func (s *CrashStore) WriteSnapshot(snap *common.SnapshotWithTopologicalOrder, signers []crypto.Hash) error {
+	if s.conc != nil {
+		return s.concWriteSnapshot(snap, signers)
+	}
 	c := blank("WriteSnapshot")
 	h := snap.PayloadHash()
 	c.Snap, c.Hash = s.snapId(h), h.String()
